@@ -39,12 +39,14 @@ const (
 	vActBadSyntax          // render text that is not parseable Go
 	vActPanic              // the generator panics (the process dies part-way through the run)
 	vActDeferNested        // register a deferred callback that renders and itself registers another one
+	vActDeferTree          // register a callback that renders and registers vState.kids[id] further ones, recursively
 	vNumActs
 )
 
 var vErrBoom = errors.New("boom")
 
 var vState struct {
+	kids map[string]int // callback id -> number of callbacks it registers while it runs (vActDeferTree)
 	act  map[string]int // gen|pkg|type -> action
 	log  []string       // call log
 	inst int            // generator instances created
@@ -52,6 +54,7 @@ var vState struct {
 
 func vReset() {
 	vState.act = map[string]int{}
+	vState.kids = map[string]int{}
 	vState.log = nil
 	vState.inst = 0
 }
@@ -119,6 +122,19 @@ func vDo(gen string, c Context, pkgPath, typeName string, seen *int, helper *boo
 			})
 			return nil
 		})
+	case vActDeferTree:
+		var mk func(id string) func(c Context) error
+		mk = func(id string) func(c Context) error {
+			return func(c Context) error {
+				vLog(genName + ":cb:" + id)
+				c.RenderT("\nvar cb_@id'_@gen = 1\n", snippetArg("id", id), snippetArg("gen", gen))
+				for i := 0; i < vState.kids[id]; i++ {
+					c.Defer(mk(id + "_" + vItoa(i)))
+				}
+				return nil
+			}
+		}
+		c.Defer(mk(typeName))
 	case vActDeferErr:
 		c.Defer(func(c Context) error {
 			vLog(genName + ":defer:" + pkgPath + "." + typeName)
